@@ -3,6 +3,11 @@
 import json, subprocess, sys
 
 claimed = {
+ "C14": dict(
+   text="Deductively proved pieces of the pipeline: summarizeCell stores as the cell's summary the unit's assumption applied to the cell's own sample, and as its comparison that assumption applied to (baseline cell's sample, own sample) in this order, leaves the sample and baseline links alone and adds at most one warning; NonSingularFields names exactly the flattened residue fields in which the cell's keys differ (soundness and completeness, for any number of keys and fields, missing values reading as empty) — so a warning names exactly the varying keys; internRow (shared with C08) keeps keys equal across field growth, which is what puts a measurement into the cell of its table/row/column.  The accumulation itself (Builder.Add: nested maps keyed by Key; ToTables: goroutines, map iteration, baseline lookup; summarizeCol: geomeans; flag parsing; the renderers) is outside the subset and is covered by a bounded stand-in that drives the real benchstat() on generated files under six flag settings and recomputes every cell independently.",
+   note="Trusted: interface method calls (Assumption.Summary/Compare) are functions of receiver and arguments; mapKeys returns the map's keys; FlattenedFields as in C08.  The one-cell-per-combination and exact-sample claims, p-values, deltas, geomean row and the warning set are bounded evidence only.",
+   technique="contract-based deductive verification (own VC generator over go/ssa; interface calls as uninterpreted functions; z3/cvc5) + bounded differential check of the whole command against an independent recomputation",
+   design="5/C14"),
  "C08": dict(
    text="Deductive proof of the key table for all rows and all tables: Projection.internRow returns a key of this projection whose stored values are exactly the row buffer with its trailing empty values removed (trimOf: equal on the kept prefix, everything dropped is empty, no trailing empty value — the clause that makes keys from before and after field growth equal), and preserves the representation invariant of the table (every interned node non-nil, owned by this projection, trimmed; buckets own disjoint backing arrays, so appending to one bucket never touches another); keyNode.equalRow holds exactly for element-wise equal value vectors; Key.Get returns the stored value of the field, a missing one reading as empty.  That equal value tuples reach the same node also needs the hash to be a function of the row (hash/maphash is external: unconstrained), and the projection closures write the row buffer through an interior pointer that aliases Projection.row, which the typed-heap model does not express: key identity across field growth, exclusion of specific keys in every parse order, internal configuration never entering .config and the lose-nothing equivalence with the residue are covered by a bounded stand-in on seeded random streams.",
    note="Trusted: FlattenedFields (sync.Once + recursive closure) returns non-nil fields and leaves row and key table alone; hash/maphash calls are unconstrained (any hash value: the proof does not depend on it).  Bounded only: populateRow, the .config/.fullname/specific-key closures, newExtractorFullName, Residue, ProjectValues.",
